@@ -66,3 +66,9 @@ claim("C05",
   "Decides structural necessary conditions of C05 for every history and fit input: add/remove of an assigned pod are exact duals on the same masked amount and recompute the derived figures; nobody else assigns Allocated; deleting a reservation removes it from all node indexes; the matchable/allocated indexes only admit matchable (and allocated) reservations, identically in the three refresh paths; a restricted reservation fits only through fitsReservation, which compares every reserved requested dimension and clamps after the preemptible credit; allocate-once and owner gates cannot be bypassed; every update of an assigned pod is replayed into the ledger; the cache maps are accessed under the cache lock. It does not decide the quantity comparison or sums over histories.",
   "trusts go/ssa and the rule tables in internal/rules/c05.go",
   "DESIGN.md §4 C05")
+
+claim("C07",
+  "custom SSA rules: dirty/clean typestate of the derived free ledger with caller-side summaries (fixpoint), arm-wise mirror rule on the add/remove flag, fresh-copy (no aliasing) rule on ledger stores, dominating-guard rule on candidate admission, conjunct provenance rule in the GPU topology allocator, write-side must-lockset",
+  "Decides structural necessary conditions of C07 for every history and request shape: free is recomputed after every write of total/used before the critical section ends; add and remove arms of used / allocation set / VF allocations are duals on the same amount and guarded against duplicate events; ledger stores never alias per-pod records; a device is handed out only if non-zero and request <= free (both allocators), and failure is reported exactly when too few were found; ledger writes happen under the node-device write lock or on a fresh copy. It does not decide the sums or the combinatorial 'fails only if no feasible set exists'.",
+  "trusts go/ssa and the rule tables in internal/rules/c07.go; read-side locking of allocators that reach the node device through a struct field is not claimed",
+  "DESIGN.md §4 C07")
